@@ -52,35 +52,39 @@ theorem sortByPos_sorted (l : List Decl) : SortedPos (sortByPos l) := by
   | nil => simp [sortByPos, SortedPos]
   | cons d r ih => exact insertByPos_sorted d _ ih
 
-/-- two position-sorted lists with the same elements and distinct positions are equal -/
+/-- positions identify the declarations of `l` -/
+def PosInj (l : List Decl) : Prop := ∀ a ∈ l, ∀ b ∈ l, a.pos = b.pos → a = b
+
+theorem PosInj.of_subset {l1 l2 : List Decl} (h : PosInj l2) (hs : ∀ a ∈ l1, a ∈ l2) : PosInj l1 :=
+  fun a ha b hb => h a (hs a ha) b (hs b hb)
+
+/-- two position-sorted lists with the same elements, positions identifying the elements, are equal -/
 theorem sorted_perm_eq : ∀ {l1 l2 : List Decl}, l1.Perm l2 → SortedPos l1 → SortedPos l2 →
-    (l1.map (·.pos)).Nodup → l1 = l2
+    PosInj l1 → l1 = l2
   | [], l2, hp, _, _, _ => by simpa using hp.symm.eq_nil
   | a :: r1, [], hp, _, _, _ => by simpa using hp.eq_nil
   | a :: r1, b :: r2, hp, h1, h2, hn => by
     have h1' := List.pairwise_cons.mp h1
     have h2' := List.pairwise_cons.mp h2
-    have hn' : a.pos ∉ r1.map (·.pos) ∧ (r1.map (·.pos)).Nodup := List.nodup_cons.mp hn
     have hab : a = b := by
       have ha : a ∈ b :: r2 := hp.mem_iff.mp (List.mem_cons_self)
       have hb : b ∈ a :: r1 := hp.mem_iff.mpr (List.mem_cons_self)
       rcases List.mem_cons.mp ha with h | ha
       · exact h
-      rcases List.mem_cons.mp hb with h | hb
+      rcases List.mem_cons.mp hb with h | hb'
       · exact h.symm
-      have hle1 := h1'.1 b hb
+      have hle1 := h1'.1 b hb'
       have hle2 := h2'.1 a ha
-      have hpos : a.pos = b.pos := by omega
-      exact absurd (List.mem_map.mpr ⟨b, hb, hpos.symm⟩) hn'.1
+      exact hn a List.mem_cons_self b hb (by omega)
     subst hab
     have hp' : r1.Perm r2 := List.Perm.cons_inv hp
-    rw [sorted_perm_eq hp' h1'.2 h2'.2 hn'.2]
+    rw [sorted_perm_eq hp' h1'.2 h2'.2 (hn.of_subset fun x hx => List.mem_cons_of_mem _ hx)]
 
-theorem sortByPos_eq_of_perm {l1 l2 : List Decl} (hp : l1.Perm l2) (hn : (l1.map (·.pos)).Nodup) :
+theorem sortByPos_eq_of_perm {l1 l2 : List Decl} (hp : l1.Perm l2) (hn : PosInj l1) :
     sortByPos l1 = sortByPos l2 := by
   apply sorted_perm_eq ((sortByPos_perm l1).trans (hp.trans (sortByPos_perm l2).symm))
     (sortByPos_sorted l1) (sortByPos_sorted l2)
-  exact ((sortByPos_perm l1).map (·.pos)).nodup_iff.mpr hn
+  exact hn.of_subset fun a ha => mem_sortByPos.mp ha
 
 /-! ## graphs -/
 
@@ -123,13 +127,13 @@ theorem allDecls_removeNode {g : Graph} {e : Entry} (he : e ∈ g) (hn : (names 
         simpa using this
       have : removeNode (e :: r) e.name = r := by
         simp only [removeNode] at hr ⊢
-        simp [List.filter_cons, hr]
+        simp [hr]
       rw [this]
       simp [allDecls]
     · have hne : a.name ≠ e.name := fun h => hn'.1 (h ▸ List.mem_map.mpr ⟨e, her, rfl⟩)
       have ih' := ih her hn'.2
       have : removeNode (a :: r) e.name = a :: removeNode r e.name := by
-        simp [removeNode, List.filter_cons, hne]
+        simp [removeNode, hne]
       rw [this]
       simp only [allDecls, List.flatMap_cons] at ih' ⊢
       exact (List.Perm.append_left a.decls ih').trans (by
